@@ -132,3 +132,11 @@ package s1
 //@   requires i.IsValid() && vcPt(p) && margin >= 0 && margin <= 100
 //@   ensures [valid!] result.IsValid()
 //@   ensures [kept!] i.Contains(p) ==> result.Contains(p)
+
+// "The length of an empty interval is negative": and only of an empty one. Callers (Expanded's fullness test) add
+// margins to the length, so a non-empty interval reported with length -1 silently loses 1 radian.
+//@ func (i Interval) Length() float64
+//@   fp
+//@   requires i.IsValid()
+//@   ensures [negative-iff-empty] (result < 0) == i.IsEmpty()
+//@   ensures [at-most-full] result <= 2*math.Pi
